@@ -108,9 +108,19 @@ func c12Build(r *mon.Rand, pos string, v []byte, args [][]byte) (typ auparse.Aud
 		absent = append(absent, "success", "key")
 	case "seccomp-exe":
 		typ = auparse.AUDIT_SECCOMP
-		msg = fmt.Sprintf("auid=4294967295 uid=33 gid=33 ses=4294967295 pid=%s comm=\"x\" exe=%s sig=31 arch=40000003 syscall=102 compat=0 ip=0xb7 code=0x0", pid, logenc.Untrusted(v))
+		// sig: SIGSYS for the kill actions; 0 for the log / errno / trace actions; any other number is possible
+		// (only the named classic signals are asserted by name; the rest of the record decodes whatever sig is)
+		sig, sigName := 31, "SIGSYS"
+		if fr := r.Fork(61); fr.Chance(1, 3) {
+			sig = mon.Pick(fr, []int{0, 0, 1, 9, 11, 15, 32, 34, 64, 255, fr.Intn(70)})
+			sigName = map[int]string{1: "SIGHUP", 2: "SIGINT", 3: "SIGQUIT", 4: "SIGILL", 5: "SIGTRAP", 6: "SIGABRT", 7: "SIGBUS", 8: "SIGFPE", 9: "SIGKILL", 10: "SIGUSR1", 11: "SIGSEGV", 12: "SIGUSR2", 13: "SIGPIPE", 14: "SIGALRM", 15: "SIGTERM", 31: "SIGSYS"}[sig]
+		}
+		msg = fmt.Sprintf("auid=4294967295 uid=33 gid=33 ses=4294967295 pid=%s comm=\"x\" exe=%s sig=%d arch=40000003 syscall=102 compat=0 ip=0xb7 code=0x0", pid, logenc.Untrusted(v), sig)
 		put("exe", v, true)
-		want["pid"], want["auid"], want["ses"], want["arch"], want["syscall"], want["sig"], want["uid"] = pid, "unset", "unset", "i386", "socketcall", "SIGSYS", "33"
+		want["pid"], want["auid"], want["ses"], want["arch"], want["syscall"], want["uid"] = pid, "unset", "unset", "i386", "socketcall", "33"
+		if sigName != "" {
+			want["sig"] = sigName
+		}
 	case "cwd":
 		typ = auparse.AUDIT_CWD
 		msg = " cwd=" + logenc.Untrusted(v)
